@@ -248,6 +248,47 @@ func rulesC05(c *Ctx) {
 		}
 		c.Pin("registration closure", nReg, 1)
 		c.Pin("enqueue closure", nEnq, 1)
+		// Notify: a refused notification is not counted and not sent
+		nf := c.Fn(pJ, "Connection", "Notify")
+		outN := c.Field(pJ, "inFlightState", "outgoingNotifications")
+		nInc := 0
+		for _, s := range c.uifSites(nf) {
+			l := s.Lit
+			lg := l.Graph()
+			verdict := l.VarFromCall(shutObj, 0)
+			for _, w := range l.FieldWrites(l.Body, outN, false) {
+				if inc, ok := w.(*ast.IncDecStmt); !ok || inc.Tok != token.INC {
+					continue
+				}
+				nInc++
+				wv := lg.VertexOf(w)
+				okRef := verdict != nil
+				for _, t := range lg.edgesWhere(func(a Atom) bool { return AtomSaysNil(a, false, func(e ast.Expr) bool { return l.ObjOf(e) == verdict }) }) {
+					seen, _ := lg.reach([]int{t}, nil, nil)
+					if seen[wv] || t == wv {
+						okRef = false
+					}
+				}
+				// there is such a test between the verdict and the increment
+				okRef = okRef && len(lg.edgesWhere(func(a Atom) bool { return AtomSaysNil(a, false, func(e ast.Expr) bool { return l.ObjOf(e) == verdict }) })) > 0
+				c.Check(okRef, "Notify:refused-not-counted", l, w, "outgoingNotifications++ is unreachable from the branch on which shuttingDown returned an error")
+			}
+		}
+		c.Pin("notification admissions", nInc, 1)
+		ng := nf.Graph()
+		wrV := ng.callVertices(c.FnObj(pJ, "Connection", "write"))
+		okSend := len(wrV) == 1
+		if okSend {
+			// the write is not reached when the admission closure left an error
+			for _, t := range ng.edgesWhere(func(a Atom) bool {
+				return AtomSaysNil(a, false, func(e ast.Expr) bool { return nf.ObjOf(e) != nil && nf.ObjOf(e) == nf.NamedResult(0) })
+			}) {
+				if seen, _ := ng.reach([]int{t}, nil, nil); seen[wrV[0]] || t == wrV[0] {
+					okSend = false
+				}
+			}
+		}
+		c.Check(okSend, "Notify:refused-not-written", nf, nil, "after a refusal Notify returns the error without writing")
 	})
 
 	c.Rule("R-C05-4", "session Close: stop keep-alive, cancel parked listens/subscriptions, then close the connection; onClose at most once", func() {
@@ -506,6 +547,195 @@ func rulesC05(c *Ctx) {
 
 	c.Rule("R-C05-8", "goroutines can always exit and timers/contexts are released: no exit-less loop, every hand-off select has a close arm, bare channel operations are a closed table, tickers stopped, cancel funcs used", func() {
 		c.goroutineRules([]string{pJ, pM})
+	})
+
+	c.Rule("R-C05-10", "Close announces shutdown and then waits; Wait and Close return only after done is closed; shuttingDown says no exactly when Close was called or either direction is broken", func() {
+		cl := c.Fn(pJ, "Connection", "Close")
+		cg := cl.Graph()
+		wt := c.Fn(pJ, "Connection", "wait")
+		wg := wt.Graph()
+		closing := c.Field(pJ, "inFlightState", "connClosing")
+		doneF := c.Field(pJ, "Connection", "done")
+		// Close: a locked closure sets connClosing = true, and that call dominates the wait whose result is returned
+		setV := -1
+		for _, s := range c.uifSites(cl) {
+			for _, w := range Writes(s.Lit.Body, false) {
+				if s.Lit.IsField(w.LHS, closing) && w.RHS != nil && exprStr(w.RHS) == "true" && len(s.Lit.Graph().GuardsAt(s.Lit.Graph().VertexOf(w.Stmt))) == 0 {
+					setV = cg.VertexOf(s.Call)
+				}
+			}
+		}
+		waits := cg.callVertices(wt.Obj)
+		okClose := setV >= 0 && len(waits) == 1 && cg.Dominates(setV, waits[0])
+		if okClose {
+			okClose = false
+			for _, r := range cl.Returns() {
+				if len(r.Results) == 1 && cg.VertexOf(r) == waits[0] {
+					okClose = true
+				}
+			}
+		}
+		c.Check(okClose, "Close:announce-then-wait", cl, nil, "Close unconditionally sets connClosing = true inside updateInFlight and then returns c.wait(…)")
+		// nobody else resets the flag
+		nSet := 0
+		for _, f := range c.funcsWithLits(pJ) {
+			for _, w := range f.FieldWrites(f.Body, closing, false) {
+				nSet++
+				c.Check(f.Root() == cl, "connClosing-writer:"+f.Name(), f, w, "connClosing is written only by Close")
+			}
+		}
+		c.Pin("writes of connClosing", nSet, 1)
+		// wait: the receive from done dominates every return
+		recvV := -1
+		inspectNoLit(wt.Body, func(n ast.Node) {
+			if u, ok := n.(*ast.UnaryExpr); ok && u.Op == token.ARROW && wt.IsField(u.X, doneF) {
+				recvV = wg.VertexOf(u)
+			}
+		})
+		okWait := recvV >= 0
+		for _, r := range wt.Returns() {
+			if okWait && !wg.Dominates(recvV, wg.VertexOf(r)) {
+				okWait = false
+			}
+		}
+		c.Check(okWait, "wait:after-done", wt, nil, "every return of wait is dominated by the receive from c.done (Close and Wait do not return while the transport is still open)")
+		// shuttingDown decision table
+		sd := c.Fn(pJ, "inFlightState", "shuttingDown")
+		sg := sd.Graph()
+		readErr, writeErr := c.Field(pJ, "inFlightState", "readErr"), c.Field(pJ, "inFlightState", "writeErr")
+		table := []struct {
+			name             string
+			closing, rd, wr  tri
+			wantNil, wantErr bool
+		}{
+			{"closing", triTrue, triUnknown, triUnknown, false, true},
+			{"read-broken", triFalse, triTrue, triUnknown, false, true},
+			{"write-broken", triFalse, triFalse, triTrue, false, true},
+			{"healthy", triFalse, triFalse, triFalse, true, false},
+		}
+		for _, row := range table {
+			seen := sg.ReachUnder(func(e ast.Expr) tri {
+				e = ast.Unparen(e)
+				if sd.IsField(e, closing) {
+					return row.closing
+				}
+				if x, twn, ok := NilTest(e); ok {
+					var v tri = triUnknown
+					if sd.IsField(x, readErr) {
+						v = row.rd // "is set"
+					} else if sd.IsField(x, writeErr) {
+						v = row.wr
+					} else {
+						return triUnknown
+					}
+					if twn { // x == nil
+						return triNot(v)
+					}
+					return v
+				}
+				return triUnknown
+			}, nil)
+			gotNil, gotErr := false, false
+			for _, r := range sd.Returns() {
+				if seen[sg.VertexOf(r)] && len(r.Results) == 1 {
+					if isNilIdent(r.Results[0]) {
+						gotNil = true
+					} else {
+						gotErr = true
+					}
+				}
+			}
+			c.Check(gotNil == row.wantNil && gotErr == row.wantErr, "shuttingDown["+row.name+"]", sd, nil, "reachable verdicts: nil=%v error=%v (expected nil=%v error=%v)", gotNil, gotErr, row.wantNil, row.wantErr)
+		}
+	})
+
+	c.Rule("R-C05-9", "no function of the connection, session and transport layers returns with a mutex it acquired still held: every path from a Lock to an exit passes the matching Unlock or a deferred Unlock (hand-offs are a closed table)", func() {
+		// functions that return with a lock held on purpose, confirmed by reading: "<function>:<lock class>" → reason
+		handoff := map[string]string{}
+		n, nDefer := 0, 0
+		for _, rel := range []string{pJ, pM} {
+			for _, f := range c.funcsWithLits(rel) {
+				g := f.Graph()
+				type op struct {
+					v        int
+					key      string
+					acquire  bool
+					deferred bool
+				}
+				var ops []op
+				for v := 0; v < g.N; v++ {
+					node := g.Node(v)
+					if node == nil {
+						continue
+					}
+					for _, call := range f.AllCalls(node, false) {
+						lo, ok := f.lockOpOf(call)
+						if !ok {
+							continue
+						}
+						k := lo.key
+						if lo.read {
+							k += "(R)"
+						}
+						_, isDefer := f.ParentOf(call).(*ast.DeferStmt)
+						ops = append(ops, op{v, k, lo.acquire, isDefer})
+					}
+					// defer func() { …; mu.Unlock() }()
+					if ds, ok := node.(*ast.DeferStmt); ok {
+						if l := f.LitOfDefer(ds); l != nil {
+							for _, call := range l.AllCalls(l.Body, false) {
+								if lo, ok := l.lockOpOf(call); ok && !lo.acquire {
+									k := lo.key
+									if lo.read {
+										k += "(R)"
+									}
+									ops = append(ops, op{v, k, false, true})
+								}
+							}
+						}
+					}
+				}
+				for _, a := range ops {
+					if !a.acquire || a.deferred {
+						continue
+					}
+					n++
+					cls := f.Name() + ":" + a.key
+					okp, path := g.MustPass(a.v, g.Exits, func(v int) bool {
+						for _, r := range ops {
+							if !r.acquire && r.key == a.key && r.v == v {
+								return true
+							}
+						}
+						return false
+					})
+					// a deferred unlock registered before the Lock (defer at the top, Lock later) also covers it
+					if !okp {
+						for _, r := range ops {
+							if !r.acquire && r.deferred && r.key == a.key && g.Dominates(r.v, a.v) {
+								okp = true
+							}
+						}
+					}
+					for _, r := range ops {
+						if !r.acquire && r.deferred && r.key == a.key {
+							nDefer++
+							break
+						}
+					}
+					if why, isHandoff := handoff[cls]; isHandoff {
+						c.Ok("lock-handoff:"+cls, f, g.Node(a.v), "returns holding the lock by design: %s", why)
+						continue
+					}
+					if okp {
+						c.Ok("lock-paired:"+cls+"#"+itoa(n), f, g.Node(a.v), "every path from this Lock to an exit unlocks")
+					} else {
+						c.Fail("lock-paired:"+cls+"#"+itoa(n), f, g.Node(a.v), "a path from this Lock reaches an exit without the matching Unlock (%s): the next acquirer blocks forever", g.PathString(path))
+					}
+				}
+			}
+		}
+		c.Pin("Lock sites in the connection, session and transport layers", n, 100)
 	})
 }
 
